@@ -280,7 +280,10 @@ ApplyOp(st, s) ==
             passthru == f = "squeeze" /\ sh = src.sh /\ src.base = 0
             \* KNOWN FINDING F-C02-1 (trigger): repeat of a tensor with a zero-length axis cannot be back-propagated
             emptyrep == f = "repeat" /\ Size(src.sh) = 0
-            st0 == [st EXCEPT !.kf = @ \cup (IF passthru THEN {"F-C04-1"} ELSE {}) \cup (IF emptyrep THEN {"F-C02-1"} ELSE {})]
+            \* KNOWN FINDING F-C02-2 (trigger): the diagonal einsum of an empty matrix cannot be back-propagated either
+            emptydiag == f = "diag" /\ Size(src.sh) = 0
+            st0 == [st EXCEPT !.kf = @ \cup (IF passthru THEN {"F-C04-1"} ELSE {}) \cup (IF emptyrep THEN {"F-C02-1"} ELSE {})
+                                       \cup (IF emptydiag THEN {"F-C02-2"} ELSE {})]
         IN IF StructIsView(f, s, src, newimap, sh)
            THEN MkView(st0, s, a, sh, g)
            ELSE MkResult(st0, s, sh, Gather(Cells(st, a), g), os)
@@ -495,13 +498,18 @@ ApplyDrop(st, s) == [st EXCEPT !.H[s.h].live = FALSE]
 \* t.copy(): fresh memory, no graph, same constant flag, and a COPY of the source's gradient (C17)
 ApplyCopy(st, s) ==
   LET a == s.a[1].h src == st.H[a]
-      st1 == NewBuf(st, [k \in 1..Len(src.imap) |-> DC(Vals(st, a)[k])], src.const)
+      \* np.copy keeps the memory layout ("K" order), like an elementwise operation on the source alone
+      lay == ElementwiseLayout(st, s.a, src.sh)
+      n == Len(src.imap)
+      vals == Vals(st, a)
+      inv == [c \in 1..n |-> CHOOSE q \in 1..n : lay[q] = c]
+      st1 == NewBuf(st, [c \in 1..n |-> DC(vals[inv[c]])], src.const)
       st2 == NewNodeB(st1, <<>>, src.const, FALSE, Len(st1.mem))
-      st3 == PutH(st2, s.h, MkH("t", Len(st1.mem), Iota(Len(src.imap)), src.sh, src.const, Len(st2.N), 0, 0))
+      st3 == PutH(st2, s.h, MkH("t", Len(st1.mem), lay, src.sh, src.const, Len(st2.N), 0, 0))
       \* Tensor.copy copies the tensor's OWN gradient slot: a view's own slot is empty
       og == IF src.base = 0 /\ ~src.const THEN st.g[a] ELSE None
   IN IF IsNone(og) THEN st3
-     ELSE [st3 EXCEPT !.g[s.h] = Some([k \in 1..Len(src.imap) |-> og.v[src.imap[k]]]), !.gen[s.h] = st.ngen + 1, !.ngen = @ + 2]
+     ELSE [st3 EXCEPT !.g[s.h] = Some([c \in 1..n |-> og.v[src.imap[inv[c]]]]), !.gen[s.h] = st.ngen + 1, !.ngen = @ + 2]
 \* the user edits a gradient array in place:  h.grad[ix] = c   (C12: aliasing of gradients)
 ApplyEditGrad(st, s) ==
   LET r == Root(st, s.h) hr == st.H[s.h]
